@@ -54,18 +54,18 @@ class C03(Plugin):
     gen = ["Consts", "Phases"]
     n_quick = 3000
     n_thorough = 60000
-    case_timeout = 30
+    case_timeout = 240
     model_chunk = 2000
     rule = ("k=0: stacks of open elements over the implied-end-tag names and others, with every exclude value: real "
             "generateImpliedEndTags vs model; k=1: tag soup, nested markup, random bytes/str, every start and end tag "
             "of the dispatch tables as a one-tag document and after <table>/<select>/<svg>/<frameset>, nesting of "
-            "each of 41 element kinds to depth 3 000 (thorough: 30 000) and 10 000 repeated formatting tags, x "
+            "each of 41 element kinds to depth 3 000 (thorough: 10 000) and 10 000 repeated formatting tags, x "
             "builder in {etree, dom} x namespacing x document/fragment with 31 containers x scripting")
     trusted_base = ["tools/trees.py traversal of the returned tree", "CPython's recursion limit (1000) as configured"]
 
     # ---------------------------------------------------------------- generation
     def patho(self, rng, tier):
-        n = rng.choice([200, 1200, 3000]) if tier != "thorough" else rng.choice([3000, 10000, 30000])
+        n = rng.choice([200, 1200, 3000]) if tier != "thorough" else rng.choice([3000, 6000, 10000])
         r = rng.random()
         el = rng.choice(DEEP)
         if r < 0.4:
